@@ -919,6 +919,10 @@ def _cause(fam, p, o, other):
         # the renamed entity (or the wrongly chosen one) is also reached by another, unrenamed path -
         # possibly through a default-PRIVATE intermediary, cf. D05a
         return "rename_lost_when_entity_also_reached_unrenamed"
+    uy_relaxed = set().union(*[relaxed[j] for j, sp in enumerate(uedges) if sp == "only_y"] or [set()])
+    if o.name == "y" and "only_y" in uedges and other not in (None, "not_a_declaration") and other in uy_relaxed and other not in uy:
+        # the rename picked, behind the renamed module, an x that module only reaches through a default-PRIVATE intermediary
+        return "default_private_of_intermediate_module_ignored"
     if o.name == "x" and "only_y" in uedges and o.ent in uy:
         return "unrenamed_name_lost_when_entity_also_renamed"
     if o.name == "x" and other in ux_relaxed and other not in ux_strict:
